@@ -138,6 +138,80 @@ Definition compile_error (f : flags) (e : modenv) (h : hierarchy) : bool :=
   | _, _ => false
   end.
 
+(* ---------- the base-class walk of _inject_pickle_methods, as the loop is written ----------
+     cls = node.entry.type; cinit = None; inherited_reduce = None
+     while cls is not None:
+         all_members.extend(e for e in cls.scope.var_entries if e.name not in (__weakref__, __dict__))
+         cinit = cinit or cls.scope.lookup_here(__cinit__)
+         inherited_reduce = inherited_reduce or cls.scope.lookup_here(__reduce__) or ...(__reduce_ex__)
+         cls = cls.base_type
+   A scope selector says which class scope a lookup of one loop step consults, given the class
+   being compiled (node) and the class of the step (k).  The code uses the class of the step for
+   both lookups (sel_cls); sel_node is the own-scope-only variant (lookup in node.scope). *)
+Record wstate := { w_members : list member; w_cinit : bool; w_reduce : bool }.
+
+Definition scope_sel := cls -> cls -> cls.
+Definition sel_cls : scope_sel := fun _ k => k.
+Definition sel_node : scope_sel := fun node _ => node.
+
+Definition walk_step (sc sr : scope_sel) (node : cls) (w : wstate) (k : cls) : wstate :=
+  {| w_members := w_members w ++ own_members k;
+     w_cinit := w_cinit w || c_cinit (sc node k);
+     w_reduce := w_reduce w || c_reduce (sr node k) |}.
+
+Definition walk (sc sr : scope_sel) (node : cls) (h : hierarchy) : wstate :=
+  fold_left (walk_step sc sr node) h {| w_members := []; w_cinit := false; w_reduce := false |}.
+
+(* what follows the loop: refusal precedence __cinit__ > unconvertible member > struct *)
+Definition decide_core (f : flags) (forced cinit : bool) (ms : list member) : decision :=
+  let np := filter (fun m => non_py f (m_kind m)) ms in
+  let st := filter (fun m => is_struct (m_kind m)) ms in
+  if cinit then InjectRaise RCinit []
+  else match np with
+       | _ :: _ => InjectRaise RNonPy (map m_name np)
+       | [] => match st with
+               | _ :: _ => if forced then InjectPickle ms else InjectRaise RStruct (map m_name st)
+               | [] => InjectPickle ms
+               end
+       end.
+
+(* visit_CClassDefNode gate (own __reduce__/__reduce_ex__), then _inject_pickle_methods in the
+   order of the source: auto_pickle False, the walk, the sort, inherited_reduce, the refusals *)
+Definition decide_walk (sc sr : scope_sel) (f : flags) (e : modenv) (h : hierarchy) : decision :=
+  match h with
+  | [] => NoInject
+  | node :: _ =>
+      if c_reduce node || (negb (fx_lookup f) && g_reduce e) then NoInject
+      else match c_auto node with
+           | Some false => NoInject
+           | au =>
+               let w := walk sc sr node h in
+               let ms := sort_m (w_members w) in
+               if w_reduce w then NoInject
+               else decide_core f (match au with Some true => true | _ => false end)
+                                (w_cinit w || (negb (fx_lookup f) && g_cinit e)) ms
+           end
+  end.
+
+(* selector by number for the driver: 0 = the code, 1 = __cinit__ looked up in node.scope only,
+   2 = __reduce__ looked up in node.scope only *)
+Definition decide_walk_n (n : nat) : flags -> modenv -> hierarchy -> decision :=
+  match n with
+  | O => decide_walk sel_cls sel_cls
+  | S O => decide_walk sel_node sel_cls
+  | _ => decide_walk sel_cls sel_node
+  end.
+
+Definition clear_cinit (k : cls) : cls :=
+  {| c_id := c_id k; c_members := c_members k; c_cinit := false; c_reduce := c_reduce k;
+     c_getstate := c_getstate k; c_setstate := c_setstate k; c_auto := c_auto k |}.
+
+(* what the compiler of ANOTHER module sees of a cimported class: the .pxd declares the attributes
+   only, so no method of that level is visible to lookup_here *)
+Definition pxd_view (k : cls) : cls :=
+  {| c_id := c_id k; c_members := c_members k; c_cinit := false; c_reduce := false;
+     c_getstate := false; c_setstate := false; c_auto := c_auto k |}.
+
 (* ---------- run-time installation (__Pyx_setup_reduce) ---------- *)
 (* called for every type that has __reduce_cython__.  A __getstate__ other than object's
    anywhere in the MRO leaves __reduce__ alone; otherwise __reduce__ is object's or an
